@@ -49,6 +49,13 @@ def oracle(case, rec):
         # amplitudes as stored by the caller: integer counts (scaled and rounded) or single precision; the brute force sums
         # the exact stored values in float64
         a2 = np.round(a2 * case.get('again', 1.0)) if adt[0] == 'i' else a2.astype(np.float32).astype(float)
+    if adt in ('f8', 'f4') and case.get('nanout') and case.get('dtype', 'f8') == 'f8':
+        # samples whose carrier or AM frequency is out of range contribute nothing - whatever their amplitude, including the
+        # NaN that an undefined instantaneous amplitude comes with (the brute force skips them before looking at it)
+        oor = ((f1 < e1[0]) | (f1 >= e1[-1]))[:, :, None] | ((f2 < e2[0]) | (f2 >= e2[-1]))
+        a2 = a2.copy()
+        a2[oor] = [np.nan, np.inf, -np.inf][int(oor.sum()) % 3]
+        rec.cls('non-finite amplitude at out-of-range samples')
     astored = a2.astype({'f8': np.float64, 'f4': np.float32, 'i8': np.int64, 'i4': np.int32, 'i2': np.int16}[adt])
     rec.cls('amplitude-dtype=' + adt)
     rt = 1e-4 if adt == 'f4' else 1e-12       # float32 amplitudes: numpy squares and sums them in single precision
@@ -81,7 +88,7 @@ def oracle(case, rec):
             outs[sq] = np.asarray(emd.spectra.holospectrum(ins[0], ins[1], ins[2], E(e1, ek[0]), E(e2, ek[1]), mode=mode, squash_time=sq))
         except Exception as e:
             raise Violation('C11/raises/%s/squash=%s' % (type(e).__name__, sq), repr(e))
-    if not all(np.array_equal(x, y) for x, y in zip(ins, (f1.astype(ft_), f2.astype(ft_), astored))):
+    if not all(np.array_equal(x, y, equal_nan=(np.asarray(y).dtype.kind == 'f')) for x, y in zip(ins, (f1.astype(ft_), f2.astype(ft_), astored))):
         raise Violation('C11/input-modified', '')
     # the caller keeps the full [time x AM x carrier] result and asks for another spectrum of the same shape (other amplitudes)
     held = outs[False]
@@ -173,7 +180,7 @@ def random_case(draw):
             'dtype': draw(st.sampled_from(['f8', 'f8', 'f4'])),
             'ekinds': kinds,
             'adtype': draw(st.sampled_from(['f8', 'f8', 'f8', 'i8', 'i4', 'i2', 'f4'])),
-            'again': draw(st.sampled_from([1.0, 100.0, 9000.0]))}
+            'again': draw(st.sampled_from([1.0, 100.0, 9000.0])), 'nanout': draw(st.sampled_from([False, False, False, True]))}
 
 
 CLAUSES = [
